@@ -2,25 +2,29 @@
   Rbgp.Monitor.Model — C18.  Executable model of the subscription machinery of
   daemon/src/table_manager.rs (`TableManager`: shards behind mutexes, `subscribers` ArcSwap,
   `subscribe`/`unsubscribe`, `insert_route`/`remove_route`/`soft_reset_in`/`unregister_peer`,
-  `peer_up`/`peer_down`) and of the consumer helpers of daemon/src/bmp.rs
-  (`apply_snapshot`, `track_peer_up`, `track_peer_down`).
+  the bulk purges `drop_families`/`drop_stale_families`/`mark_llgr_stale`/
+  `drop_llgr_stale_families`, `peer_up`/`peer_down`) and of the consumer in daemon/src/bmp.rs
+  (`BmpClient::serve`: `apply_snapshot`, the PeerUp burst from the global peer table,
+  `flush_peer_snapshot`, `send_peer_up`/`send_peer_down` with `track_peer_up/down`).
 
   The model is a labelled transition system.  Every Rust function is compiled (`compile`) into
   the list of its atomic steps in program order — exactly the critical sections and the
   lock-free loads/stores of the Rust — separated by the scheduling points that exist in the
   code under `cfg(osrg_rustybgp_verif)` (`verif_sched::point`: before each shard-lock
-  acquisition, after each subscriber-list load, after `subscribe`'s rcu) and by one point before
-  each operation.  `step i st` executes the next atomic step of thread `i`; ANY interleaving of
-  such steps (subject to mutex exclusion) is a behaviour of the model and the theorems quantify
-  over all of them.  `run` is the deterministic scheduler the Rust harness implements as well:
-  it releases one thread at a time from one *active* scheduling point to the next, according to
-  the schedule in the case.
+  acquisition, after the lock is acquired, after each subscriber-list load, after the guard is
+  dropped, after `subscribe`'s rcu, before `peer_up`/`peer_down` load the list) and by one point
+  before each operation.  `step i st` executes the next atomic step of thread `i`; ANY
+  interleaving of such steps (subject to mutex exclusion) is a behaviour of the model and the
+  theorems quantify over all of them.  `run` is the deterministic scheduler the Rust harness
+  implements as well: it releases one thread at a time from one *active* scheduling point to the
+  next, according to the schedule in the case.
 
   Import-free (core only).
 -/
 namespace Rbgp.Monitor
 
-/-- (peer, prefix, path-id); a prefix is (shard it is dealt to, index within the shard). -/
+/-- (peer, prefix, path-id); a prefix is (shard it is dealt to, index within the shard; index 2
+    is an IPv6 prefix, 0 and 1 are IPv4). -/
 structure Key where
   peer : Nat
   shard : Nat
@@ -39,10 +43,16 @@ def applyImport : Pol → Nat → Option Nat
   | .reject, _ => Option.none
   | .tag, a => some (a + 1000)
 
-/-- `RibEntry`: `original_attr` and (`path.attr` unless FLAG_FILTERED). -/
+/-- What is observed of a route's attributes and next hop: MED `a`, the next hop (derived from
+    `a` by the harness: 10.9.0.(a mod 5 + 1)) in the ten-thousands, LOCAL_PREF presence (+1000). -/
+def encVal (a : Nat) : Nat := a + 10000 * (a % 5 + 1)
+
+/-- `RibEntry`: `original_attr`, (`path.attr` unless FLAG_FILTERED), and the session (`Source`
+    Arc) it came from. -/
 structure Entry where
   pre : Nat
   post : Option Nat
+  gen : Nat
   deriving DecidableEq, Repr, Inhabited
 
 /-- `BgpEvent` as far as C18 is concerned (Loc-RIB / Adj-RIB-Out / EOR events are dropped by
@@ -61,10 +71,13 @@ inductive Ret where
 
 /-- Scheduling points. -/
 inductive YK where
-  | op              -- harness: before an operation (and between unregister_peer and peer_down)
-  | registered      -- table_manager: after `subscribers.rcu` in `subscribe`
-  | lock (k : Nat)  -- table_manager: before `shards[k].lock()`
-  | loaded          -- table_manager: after `subscribers.load()`
+  | op                 -- harness: before an operation
+  | registered         -- table_manager: after `subscribers.rcu` in `subscribe`
+  | lock (k : Nat)     -- table_manager: before `shards[k].lock()`
+  | acquired (k : Nat) -- table_manager: `shards[k].lock()` has returned
+  | loaded             -- table_manager: after `subscribers.load()`
+  | unlocked (k : Nat) -- table_manager: the guard of shard k has been dropped
+  | notify             -- table_manager: `peer_up`/`peer_down` about to load the subscriber list
   deriving DecidableEq, Repr, Inhabited
 
 /-- Atomic steps. -/
@@ -76,14 +89,21 @@ inductive Instr where
   | loadSubs                        -- `self.subscribers.load()`
   | commitIns (key : Key) (a : Nat) -- insert_route body under the lock
   | commitRem (key : Key)           -- remove_route body under the lock
-  | commitSr (k : Nat)              -- TableShard::soft_reset_in under the lock
-  | commitDrop (k : Nat)            -- TableShard::disconnected (Table::drop) under the lock
+  | commitSr (k p : Nat)            -- TableShard::soft_reset_in(peer p) under the lock
+  | commitDrop (k : Nat)            -- unregister_peer: TableShard::disconnected (Table::drop)
+  | commitStale (k : Nat)           -- unregister_peer: TableShard::mark_stale (Table::restale)
+  | commitDropQuiet (k : Nat)       -- drop_families: TableShard::disconnected
+  | commitPurge (k : Nat)           -- drop_stale_families: Table::drop_stale
+  | commitLlgr (k : Nat)            -- mark_llgr_stale: Table::restale_llgr (+ drop_no_llgr)
+  | commitLpurge (k : Nat)          -- drop_llgr_stale_families: Table::drop_llgr_stale
+  | setEst (b : Bool)               -- PeerState.session_addrs.store(Some / None)
   | sendUp                          -- peer_up: load subscribers; send
-  | sendDown                        -- peer_down: load subscribers; send
+  | sendDown                        -- peer_down after a non-retaining teardown
+  | sendDownGr                      -- peer_down after a GR-retaining teardown
   | setPol (p : Pol)                -- import_policy.store
-  | register (want : Bool)          -- subscribe: new id, channel, rcu
+  | register (want bmp : Bool)      -- subscribe: new id, channel, rcu
   | snap (k : Nat)                  -- subscribe: walk shard k under its lock
-  | sentinel                        -- subscribe: EndOfSnapshot
+  | sentinel                        -- subscribe: EndOfSnapshot (bmp: serve then reads the peer table)
   | unsubscribe
   | ret                             -- operation returns ()
   deriving DecidableEq, Repr, Inhabited
@@ -94,48 +114,71 @@ inductive Op where
   | down
   | ins (k j pid a : Nat)
   | rem (k j pid : Nat)
-  | sr
+  | sr (p : Nat)          -- soft reset IN of peer p (any thread: the gRPC task in the daemon)
   | pol (p : Pol)
+  | gdown                 -- session end with GR negotiated: routes retained as stale
+  | purge                 -- drop_stale_families
+  | dropfam               -- drop_families
+  | llgr                  -- mark_llgr_stale
+  | lpurge                -- drop_llgr_stale_families
   | sub (want : Bool)
+  | bmp                   -- a BMP client connection: the real `BmpClient::serve`
   | unsub
   deriving DecidableEq, Repr, Inhabited
 
 def perShard (n : Nat) (f : Nat → List Instr) : List Instr := (List.range n).flatMap f
 
+/-- `points(LOCK); lock(); points(ACQUIRED); body; drop(guard); points(UNLOCKED)` -/
+def lockSec (k : Nat) (body : List Instr) : List Instr :=
+  [.yld (.lock k), .acquire k, .yld (.acquired k)] ++ body ++ [.release k, .yld (.unlocked k)]
+
+/-- the bulk mutators: `let subs = self.subscribers.load(); for shard { lock; body; }` -/
+def bulk (n : Nat) (body : Nat → Instr) : List Instr :=
+  [.loadSubs, .yld .loaded] ++ perShard n (fun k => lockSec k [body k])
+
 /-- The Rust functions as sequences of atomic steps (program order of table_manager.rs). -/
 def compile (n me : Nat) : Op → List Instr
-  | .up => [.yld .op, .sendUp, .ret]
+  | .up => [.yld .op, .setEst true, .yld .notify, .sendUp, .ret]
   | .down =>
-      -- unregister_peer(addr, drop_families, []) ; peer_down(..)   (event/mod.rs session teardown)
-      [.yld .op, .loadSubs, .yld .loaded]
-      ++ perShard n (fun k => [.yld (.lock k), .acquire k, .commitDrop k, .release k])
-      ++ [.yld .op, .sendDown, .ret]
+      -- apply_outputs(SessionDown): session_addrs := None; finish_session: unregister_peer(addr,
+      -- drop_families, []) ; peer_down(..)
+      [.yld .op, .setEst false] ++ bulk n .commitDrop ++ [.yld .notify, .sendDown, .ret]
+  | .gdown =>
+      -- the same with GR negotiated: unregister_peer(addr, [], stale_families)
+      [.yld .op, .setEst false] ++ bulk n .commitStale ++ [.yld .notify, .sendDownGr, .ret]
   | .ins k j pid a =>
-      [.yld .op, .loadPol, .yld (.lock k), .acquire k, .loadSubs, .yld .loaded,
-       .commitIns ⟨me, k, j, pid⟩ a, .release k]
+      [.yld .op, .loadPol] ++ lockSec k [.loadSubs, .yld .loaded, .commitIns ⟨me, k, j, pid⟩ a]
   | .rem k j pid =>
-      [.yld .op, .yld (.lock k), .acquire k, .loadSubs, .yld .loaded,
-       .commitRem ⟨me, k, j, pid⟩, .release k, .ret]
-  | .sr =>
+      [.yld .op] ++ lockSec k [.loadSubs, .yld .loaded, .commitRem ⟨me, k, j, pid⟩] ++ [.ret]
+  | .sr p =>
       [.yld .op, .loadPol]
-      ++ perShard n (fun k => [.yld (.lock k), .acquire k, .loadSubs, .yld .loaded, .commitSr k, .release k])
+      ++ perShard n (fun k => lockSec k [.loadSubs, .yld .loaded, .commitSr k p])
       ++ [.ret]
   | .pol p => [.yld .op, .setPol p, .ret]
+  | .purge => [.yld .op] ++ bulk n .commitPurge ++ [.ret]
+  | .dropfam => [.yld .op] ++ bulk n .commitDropQuiet ++ [.ret]
+  | .llgr => [.yld .op] ++ bulk n .commitLlgr ++ [.ret]
+  | .lpurge => [.yld .op] ++ bulk n .commitLpurge ++ [.ret]
   | .sub want =>
-      [.yld .op, .register want, .yld .registered]
-      ++ (if want then
-            perShard n (fun k => [.yld (.lock k), .acquire k, .snap k, .release k]) ++ [.sentinel]
-          else [])
+      [.yld .op, .register want false, .yld .registered]
+      ++ (if want then perShard n (fun k => lockSec k [.snap k]) ++ [.sentinel] else [])
       ++ [.ret]
+  | .bmp =>
+      [.yld .op, .register true true, .yld .registered]
+      ++ perShard n (fun k => lockSec k [.snap k]) ++ [.sentinel, .ret]
   | .unsub => [.yld .op, .unsubscribe, .ret]
 
 def compileAll (n me : Nat) (ops : List Op) : List Instr := ops.flatMap (compile n me)
 
-/-- A subscription created by a thread: id, snapshot wanted, still subscribed. -/
+/-- A subscription created by a thread: id, snapshot wanted, still subscribed (not `unsub`-ed),
+    made by a BMP client (`bmp`), and for those the established peers `serve` found in the
+    global peer table right after EndOfSnapshot. -/
 structure SubRec where
   sid : Nat
   want : Bool
   live : Bool
+  bmp : Bool
+  e0 : List Nat
   deriving DecidableEq, Repr, Inhabited
 
 structure Thread where
@@ -152,6 +195,8 @@ structure Thread where
   dirty : Bool := false
   /-- the session's prefix counter (`AtomicU64`, fresh per session) -/
   count : Nat := 0
+  /-- the session's `Source` (a new Arc per session) -/
+  gen : Nat := 0
   /-- ghost: shards already dropped by the teardown in progress -/
   drop : Option (List Nat) := none
   /-- ghost: subscription being snapshotted and the shards already walked -/
@@ -174,6 +219,11 @@ structure St where
   nextSub : Nat
   /-- `TableManager.import_policy` -/
   policy : Pol
+  /-- peers whose `PeerState.session_addrs` is set (what `Peer::bmp_peer_up` looks at) -/
+  established : List Nat
+  /-- (peer, session) pairs whose `Source` is marked stale / LLGR-stale -/
+  staleGens : List (Nat × Nat)
+  llgrGens : List (Nat × Nat)
   threads : Nat → Thread
   /-- ghost: shards whose snapshot has been queued, per subscription -/
   done : Nat → List Nat
@@ -209,9 +259,18 @@ def addKey (keys : List Key) (k : Key) : List Key := if k ∈ keys then keys els
 /-- `AtomicU64::fetch_sub(1)` wraps. -/
 def decU64 (c : Nat) : Nat := if c = 0 then 18446744073709551615 else c - 1
 
+def isStale (st : St) (p : Nat) (e : Entry) : Bool := decide ((p, e.gen) ∈ st.staleGens)
+def isLlgr (st : St) (p : Nat) (e : Entry) : Bool := decide ((p, e.gen) ∈ st.llgrGens)
+
 /-- keys of peer `p` present in shard `k` -/
 def peerKeysIn (st : St) (p k : Nat) : List Key :=
   st.keys.filter fun key => key.peer = p && key.shard = k && (st.rib key).isSome
+
+/-- `collect_adj_in_paths(peer, None, include_stale = false)` -/
+def freshKeysIn (st : St) (p k : Nat) : List Key :=
+  (peerKeysIn st p k).filter fun key => match st.rib key with
+    | some e => !(isStale st p e)
+    | none => false
 
 def shardKeys (st : St) (k : Nat) : List Key :=
   st.keys.filter fun key => key.shard = k && (st.rib key).isSome
@@ -231,7 +290,16 @@ def markDead : List SubRec → Option (Nat × List SubRec)
   | r :: rest =>
       match markDead rest with
       | some (s, rest') => some (s, r :: rest')
-      | none => if r.live then some (r.sid, { r with live := false } :: rest) else none
+      | none => if r.live && !r.bmp then some (r.sid, { r with live := false } :: rest) else none
+
+/-- the generations of `p`'s entries present in shard `k` (the `Source`s `restale` marks) -/
+def gensIn (st : St) (p k : Nat) : List (Nat × Nat) :=
+  (peerKeysIn st p k).filterMap fun key => (st.rib key).map fun e => (p, e.gen)
+
+def setLast (l : List SubRec) (f : SubRec → SubRec) : List SubRec :=
+  match l.reverse with
+  | [] => []
+  | r :: rest => (f r :: rest).reverse
 
 /-- One atomic step of thread `me` (the head of its program); `none` = nothing to do, or the
     step is `acquire` of a lock somebody else holds. -/
@@ -246,8 +314,11 @@ def step (me : Nat) (st : St) : Option St :=
         let t := match y with
           | .op => { t with dirty := false }
           | .registered => { t with dirty := false }
+          | .notify => { t with dirty := false }
           | .lock _ => { t with dirty := true }
+          | .acquired _ => t
           | .loaded => t
+          | .unlocked _ => t
         some { st with threads := updT st.threads me t }
     | .loadPol => some { st with threads := updT st.threads me { t with pol := st.policy } }
     | .acquire k =>
@@ -263,12 +334,13 @@ def step (me : Nat) (st : St) : Option St :=
           -- PrefixLimitExceeded: nothing installed, nobody notified (fixed S28a)
           some { st with threads := updT st.threads me { t with rets := t.rets ++ [.limit] } }
         else
-          let post := applyImport t.pol a
+          let v := encVal a
+          let post := applyImport t.pol v
           let count := if isNew && st.limit != 0 then t.count + 1 else t.count
           some { st with
-            rib := updRib st.rib key (some ⟨a, post⟩)
+            rib := updRib st.rib key (some ⟨v, post, t.gen⟩)
             keys := addKey st.keys key
-            queues := send st.queues t.subs [.pre key (some a), .post key post]
+            queues := send st.queues t.subs [.pre key (some v), .post key post]
             threads := updT st.threads me { t with count := count, rets := t.rets ++ [.ok] } }
     | .commitRem key =>
         let queues := send st.queues t.subs [.pre key none, .post key none]
@@ -278,29 +350,53 @@ def step (me : Nat) (st : St) : Option St :=
           some { st with rib := rib, queues := queues, threads := updT st.threads me { t with count := count } }
         else
           some { st with queues := queues, threads := updT st.threads me t }
-    | .commitSr k =>
-        let ks := peerKeysIn st me k
+    | .commitSr k p =>
+        let ks := freshKeysIn st p k
         let evs := ks.map fun key => Ev.post key ((st.rib key).bind fun e => applyImport t.pol e.pre)
         let rib : Key → Option Entry := fun key =>
-          if key.peer = me ∧ key.shard = k then (st.rib key).map fun e => { e with post := applyImport t.pol e.pre }
+          if key.peer = p ∧ key.shard = k then
+            (st.rib key).map fun e => if isStale st p e then e else { e with post := applyImport t.pol e.pre }
           else st.rib key
         some { st with rib := rib, queues := send st.queues t.subs evs, threads := updT st.threads me t }
     | .commitDrop k =>
         let rib : Key → Option Entry := fun key => if key.peer = me ∧ key.shard = k then none else st.rib key
         some { st with rib := rib, threads := updT st.threads me { t with drop := some (k :: t.drop.getD []) } }
+    | .commitDropQuiet k =>
+        let rib : Key → Option Entry := fun key => if key.peer = me ∧ key.shard = k then none else st.rib key
+        some { st with rib := rib, threads := updT st.threads me t }
+    | .commitStale k =>
+        some { st with staleGens := st.staleGens ++ gensIn st me k, threads := updT st.threads me t }
+    | .commitPurge k =>
+        let rib : Key → Option Entry := fun key =>
+          if key.peer = me ∧ key.shard = k then (st.rib key).bind fun e => if isStale st me e then none else some e
+          else st.rib key
+        some { st with rib := rib, threads := updT st.threads me t }
+    | .commitLlgr k =>
+        some { st with llgrGens := st.llgrGens ++ gensIn st me k, threads := updT st.threads me t }
+    | .commitLpurge k =>
+        let rib : Key → Option Entry := fun key =>
+          if key.peer = me ∧ key.shard = k then (st.rib key).bind fun e => if isLlgr st me e then none else some e
+          else st.rib key
+        some { st with rib := rib, threads := updT st.threads me t }
+    | .setEst b =>
+        let est := st.established.filter (· != me)
+        some { st with established := if b then est ++ [me] else est, threads := updT st.threads me t }
     | .sendUp =>
         some { st with queues := send st.queues st.subscribers [.up me], threads := updT st.threads me t }
     | .sendDown =>
         some { st with queues := send st.queues st.subscribers [.down me]
-                       threads := updT st.threads me { t with drop := none, count := 0 } }
+                       threads := updT st.threads me { t with drop := none, count := 0, gen := t.gen + 1 } }
+    | .sendDownGr =>
+        some { st with queues := send st.queues st.subscribers [.down me]
+                       threads := updT st.threads me { t with count := 0, gen := t.gen + 1 } }
     | .setPol p => some { st with policy := p, threads := updT st.threads me t }
-    | .register want =>
+    | .register want bmp =>
         let s := st.nextSub
         some { st with
           subscribers := st.subscribers ++ [s]
           nextSub := s + 1
           threads := updT st.threads me
-            { t with mysubs := t.mysubs ++ [⟨s, want, true⟩], snapping := if want then some (s, []) else none } }
+            { t with mysubs := t.mysubs ++ [⟨s, want, true, bmp, []⟩], snapping := if want then some (s, []) else none } }
     | .snap k =>
         match t.snapping with
         | some (s, l) =>
@@ -315,7 +411,8 @@ def step (me : Nat) (st : St) : Option St :=
             some { st with
               queues := send st.queues [s] [.eos]
               complete := s :: st.complete
-              threads := updT st.threads me { t with snapping := none } }
+              threads := updT st.threads me
+                { t with snapping := none, mysubs := setLast t.mysubs fun r => { r with e0 := st.established } } }
         | none => some { st with threads := updT st.threads me t }
     | .unsubscribe =>
         match markDead t.mysubs with
@@ -345,15 +442,19 @@ def initThreads (n : Nat) (ths : List (Bool × List Op)) : Nat → Thread :=
 def init (c : Case) : St :=
   { n := c.n, limit := c.limit, nthreads := c.threads.length
     rib := fun _ => none, keys := [], subscribers := [], queues := fun _ => [], nextSub := 0
-    policy := .none, threads := initThreads c.n c.threads, done := fun _ => [], complete := [] }
+    policy := .none, established := [], staleGens := [], llgrGens := []
+    threads := initThreads c.n c.threads, done := fun _ => [], complete := [] }
 
 /-- Is the scheduling point an actual yield?  (Same rule in harness/daemon/c18.rs `Sched::point`.)
     Coarse granularity 0: an operation is atomic up to its second lock acquisition. -/
 def active (gran : Nat) (t : Thread) : YK → Bool
   | .op => true
   | .registered => true
+  | .notify => true
   | .lock _ => gran = 1 || t.dirty
+  | .acquired _ => gran = 1
   | .loaded => gran = 1
+  | .unlocked _ => gran = 1
 
 /-- A parked thread can be released unless it is about to lock a shard somebody holds. -/
 def schedEnabled (st : St) (i : Nat) : Bool :=
@@ -402,6 +503,8 @@ abbrev SnapMap := List (Key × Nat)
 def SnapMap.erase (m : SnapMap) (k : Key) : SnapMap := m.filter fun kv => kv.1 != k
 def SnapMap.insert (m : SnapMap) (k : Key) (v : Nat) : SnapMap := (m.erase k) ++ [(k, v)]
 def SnapMap.get (m : SnapMap) (k : Key) : Option Nat := (m.find? fun kv => kv.1 = k).map (·.2)
+/-- `snapshot.remove(&peer_addr)` -/
+def SnapMap.dropPeer (m : SnapMap) (p : Nat) : SnapMap := m.filter fun kv => kv.1.peer != p
 
 /-- `apply_snapshot`: reach events insert, withdrawal events remove. -/
 def applySnapshot (m : SnapMap) (k : Key) : Option Nat → SnapMap
@@ -409,12 +512,14 @@ def applySnapshot (m : SnapMap) (k : Key) : Option Nat → SnapMap
   | none => m.erase k
 
 /-- The snapshot phase of `BmpClient::serve`: until `EndOfSnapshot`, AdjRibIn events go to one
-    map, AdjRibInPost events to the other, everything else is skipped. -/
+    map, AdjRibInPost events to the other, a PeerDown drops that peer from both maps (repaired:
+    it used to be skipped), everything else is skipped. -/
 def drainSnapshot : List Ev → SnapMap × SnapMap → SnapMap × SnapMap
   | [], m => m
   | .eos :: _, m => m
   | .pre k v :: r, (a, b) => drainSnapshot r (applySnapshot a k v, b)
   | .post k v :: r, (a, b) => drainSnapshot r (a, applySnapshot b k v)
+  | .down p :: r, (a, b) => drainSnapshot r (a.dropPeer p, b.dropPeer p)
   | _ :: r, m => drainSnapshot r m
 
 /-- `track_peer_up` -/
@@ -467,15 +572,43 @@ def ctlOf : List Ev → List Ev
   | .eos :: r => .eos :: ctlOf r
   | _ :: r => ctlOf r
 
+/-- What `BmpClient::serve` writes on its connection about (map `post?`, `key`): the flushed
+    snapshot entry if the key's peer was established at EndOfSnapshot, then every live route
+    event of the key, and a PeerDown of the key's peer whenever `send_peer_down` lets it out. -/
+def wireLive (post : Bool) (key : Key) : List Ev → List Nat → List Item
+  | [], _ => []
+  | .pre k v :: r, sent =>
+      if !post && k = key then itemOf v :: wireLive post key r sent else wireLive post key r sent
+  | .post k v :: r, sent =>
+      if post && k = key then itemOf v :: wireLive post key r sent else wireLive post key r sent
+  | .up p :: r, sent => wireLive post key r (trackPeerUp sent p)
+  | .down p :: r, sent =>
+      let (f, sent') := trackPeerDown sent p
+      if f && p = key.peer then .dn :: wireLive post key r sent' else wireLive post key r sent'
+  | .eos :: r, sent => wireLive post key r sent
+
+def wireHist (post : Bool) (key : Key) (q : List Ev) (e0 : List Nat) : List Item :=
+  let (sp, spo) := drainSnapshot q ([], [])
+  let flushed := if key.peer ∈ e0 then ((if post then spo else sp).get key).map Item.val else none
+  flushed.toList ++ wireLive post key (afterEos q) e0
+
+/-- the PeerUp / PeerDown messages about peer `p` on the connection, in order -/
+def wireCtl (p : Nat) (q : List Ev) (e0 : List Nat) : List Ev :=
+  (if p ∈ e0 then [Ev.up p] else []) ++
+    (forward (afterEos q) e0).filter fun e => e = .up p || e = .down p
+
 structure SubObs where
   tid : Nat
   nth : Nat
   want : Bool
   live : Bool
+  bmp : Bool
   ctl : List Ev
   hist : List (List Item × List Item)     -- per universe key
   snap : List (Option Nat × Option Nat)   -- per universe key: the consumer's snapshot maps
   fwd : List Ev
+  whist : List (List Item × List Item)    -- bmp: per universe key, what was written on the wire
+  wctl : List (List Ev)                   -- bmp: per thread index (peer)
   deriving DecidableEq, Repr, Inhabited
 
 structure Obs where
@@ -484,6 +617,8 @@ structure Obs where
   rib : List (Option Nat × Option Nat)    -- per universe key
   rows : Nat × Nat
   extra : Nat
+  /-- a subscriber list used inside a critical section was not the list of that moment -/
+  staleList : Bool
   finished : Bool
   deriving DecidableEq, Repr, Inhabited
 
@@ -505,12 +640,19 @@ def keyUniverse (c : Case) : List Key :=
 
 def subObs (st : St) (u : List Key) (tid nth : Nat) (r : SubRec) : SubObs :=
   let q := st.queues r.sid
-  let (sp, spost) := if r.want then drainSnapshot q ([], []) else ([], [])
-  { tid := tid, nth := nth, want := r.want, live := decide (r.sid ∈ st.subscribers)
-    ctl := ctlOf q
-    hist := u.map fun key => (histPre key q, histPost key q)
-    snap := u.map fun key => (sp.get key, spost.get key)
-    fwd := forward (if r.want then afterEos q else q) [] }
+  if r.bmp then
+    { tid := tid, nth := nth, want := true, live := true, bmp := true
+      ctl := [], hist := [], snap := [], fwd := []
+      whist := u.map fun key => (wireHist false key q r.e0, wireHist true key q r.e0)
+      wctl := (List.range st.nthreads).map fun p => wireCtl p q r.e0 }
+  else
+    let (sp, spost) := if r.want then drainSnapshot q ([], []) else ([], [])
+    { tid := tid, nth := nth, want := r.want, live := decide (r.sid ∈ st.subscribers), bmp := false
+      ctl := ctlOf q
+      hist := u.map fun key => (histPre key q, histPost key q)
+      snap := u.map fun key => (sp.get key, spost.get key)
+      fwd := forward (if r.want then afterEos q else q) []
+      whist := [], wctl := [] }
 
 def enumFrom' {α} : Nat → List α → List (Nat × α)
   | _, [] => []
@@ -525,6 +667,7 @@ def observe (c : Case) (st : St) : Obs :=
     rows := ((st.keys.filter fun k => (st.rib k).isSome).length,
              (st.keys.filter fun k => (postOf st k).isSome).length)
     extra := 0
+    staleList := false
     finished := finished st }
 
 end Rbgp.Monitor
